@@ -348,7 +348,16 @@ def run_batch(check, tier, seed, runs=None, workers=None, verbose=True):
         with open(os.environ["VERIF_DIGESTS"], "w") as f:
             json.dump(sorted(total.get("digests", [])), f)
     wall = time.time() - t0
-    holes = write_evidence(check, tier, seed, total, wall, total["nviol"], sorted(set(known_lines)))
+    newcls = set((k, g) for k, g, _i, _p, _v in new)
+    if not newcls:
+        n_new, n_known = 0, total["nviol"]
+    elif not known_lines:
+        n_new, n_known = total["nviol"], 0
+    else:   # mixed: the kept list of violating runs is capped per worker chunk, so these are lower bounds
+        n_new = sum(1 for _i, _p, vj in total["viol"] if (vj["kind"], vj["signature"]) in newcls)
+        n_known = len(total["viol"]) - n_new
+    holes = write_evidence(check, tier, seed, total, wall, n_new, sorted(set(known_lines)),
+                           extra={"runs_showing_a_known_finding": n_known})
     for h in holes:
         print("COVERAGE-HOLE property=%s probe=%s" % (check.pid, h))
     if verbose:
